@@ -108,7 +108,9 @@ class TFLiteSerialiser:
                         # Do nothing when values are None (dynamic weights)
                         if op.inputs[1].values is not None:
                             for idx, inp in enumerate(op.inputs):
-                                if inp != op.ifm and inp is not None and inp.src_tensor is not None:
+                                # only constants were cloned by the reader; the source of a computed operand (a bias that an NPU
+                                # operator produces) is a tensor inside the Ethos-U operator
+                                if inp != op.ifm and inp is not None and inp.values is not None and inp.src_tensor is not None:
                                     op.inputs[idx] = inp.src_tensor
 
         # list of tuple(Op, string, op.version); the custom code is only used for 3rd party custom operators
